@@ -351,6 +351,63 @@ def _key_uses(prog, fn, pname, seen=None, depth=0):
     return reads, writes, other
 
 
+def top_resets(prog, fn, p, depth=0):
+    """Keys of the dict parameter ``p`` that are (re)assigned by the leading
+    statements of ``fn`` before any other use of p: ``p.update(<literal>)``,
+    ``p['k'] = <expr not reading p>``, or a call of a package helper that
+    receives p and does the same at ITS top."""
+    mod = fn.module
+    reset = set()
+    for st in paths.linear(fn.node.body):
+        uses = [x for x in paths.own_walk(st)
+                if isinstance(x, ast.Name) and x.id == p]
+        if not uses:
+            continue
+        is_reset = False
+        if isinstance(st, ast.Expr) and isinstance(st.value, ast.Call) and \
+                isinstance(st.value.func, ast.Attribute) and \
+                st.value.func.attr == 'update' and \
+                isinstance(st.value.func.value, ast.Name) and \
+                st.value.func.value.id == p and \
+                update_items(st.value):
+            # values of the literal must not read p itself
+            its_ = update_items(st.value)
+            vals_use = [x for _k, v in its_
+                        for x in ast.walk(v)
+                        if isinstance(x, ast.Name) and x.id == p]
+            if not vals_use:
+                is_reset = True
+                for k, _v in its_:
+                    reset.add(k)
+        elif isinstance(st, ast.Assign) and len(st.targets) == 1 and \
+                paths.subscript_key(st.targets[0]) and \
+                paths.subscript_key(st.targets[0])[0] == p and \
+                not [x for x in ast.walk(st.value)
+                     if isinstance(x, ast.Name) and x.id == p]:
+            is_reset = True
+            reset.add(paths.subscript_key(st.targets[0])[1])
+        elif isinstance(st, ast.Expr) and isinstance(st.value, ast.Call) and \
+                depth < 2:
+            from . import roles as _roles
+            try:
+                callee = _roles.callee_of(prog, mod, st.value)
+                amap = _roles.arg_names(prog, mod, st.value) or {}
+            except Exception:
+                callee, amap = None, {}
+            pars = [q for q, a in amap.items()
+                    if isinstance(a, ast.Name) and a.id == p]
+            others = [a for q, a in amap.items() if q not in pars and any(
+                isinstance(x, ast.Name) and x.id == p for x in ast.walk(a))]
+            if callee is not None and len(pars) == 1 and not others:
+                sub = top_resets(prog, callee, pars[0], depth + 1)
+                if sub:
+                    is_reset = True
+                    reset |= sub
+        if not is_reset:
+            break
+    return reset
+
+
 def check_defaults(prog, rep, rule='R-defaults'):
     n = 0
     for fn, p, d in mutable_defaults(prog):
@@ -359,39 +416,9 @@ def check_defaults(prog, rep, rule='R-defaults'):
         where = fn.qualname
         construct = '%s=%s' % (p, model.norm_src(mod, d))
         # reset keys: a top-level  p.update({...})  and top-level p['k'] = ...
-        # statements that precede every other use of p
-        reset = set()
-        first_use_line = None
-        for st in paths.linear(fn.node.body):
-            uses = [x for x in paths.own_walk(st)
-                    if isinstance(x, ast.Name) and x.id == p]
-            if not uses:
-                continue
-            is_reset = False
-            if isinstance(st, ast.Expr) and isinstance(st.value, ast.Call) and \
-                    isinstance(st.value.func, ast.Attribute) and \
-                    st.value.func.attr == 'update' and \
-                    isinstance(st.value.func.value, ast.Name) and \
-                    st.value.func.value.id == p and \
-                    update_items(st.value):
-                # values of the literal must not read p itself
-                its_ = update_items(st.value)
-                vals_use = [x for _k, v in its_
-                            for x in ast.walk(v)
-                            if isinstance(x, ast.Name) and x.id == p]
-                if not vals_use:
-                    is_reset = True
-                    for k, _v in its_:
-                        reset.add(k)
-            elif isinstance(st, ast.Assign) and len(st.targets) == 1 and \
-                    paths.subscript_key(st.targets[0]) and \
-                    paths.subscript_key(st.targets[0])[0] == p and \
-                    not [x for x in ast.walk(st.value)
-                         if isinstance(x, ast.Name) and x.id == p]:
-                is_reset = True
-                reset.add(paths.subscript_key(st.targets[0])[1])
-            if not is_reset:
-                break
+        # statements that precede every other use of p (also inside a helper
+        # that is called at the top with p as an argument)
+        reset = top_resets(prog, fn, p)
         reads, writes, other = _key_uses(prog, fn, p)
         stale = sorted(k for k in reads
                        if k not in reset and k in writes)
@@ -493,6 +520,13 @@ def check_uninit(prog, rep, rule='R-uninit'):
             rep.unknown(rule, where, construct, 'np.empty not bound to a name')
             continue
         var = par.targets[0].id
+        # an array with a literal zero extent has no entry to initialise
+        shp = call.args[0] if call.args else None
+        if isinstance(shp, (ast.Tuple, ast.List)) and any(
+                isinstance(x, ast.Constant) and x.value == 0
+                for x in shp.elts):
+            rep.ok(rule, where, construct, detail='zero-size buffer')
+            continue
         # aliases: row views through  for ... in zip(..., var, ...)  / var
         views = {}        # view name -> loop node
         for node in ast.walk(fn.node):
@@ -720,7 +754,31 @@ def check_clock(prog, rep, rule='R-clock'):
                 n += 1
                 construct = model.norm_src(mod, x if e is x else e)
                 ok = False
-                if isinstance(x, ast.Assign) and e is x:
+                # every clock value of the expression is an ARGUMENT of the
+                # shared stop-criterion / log routine (whatever is done with
+                # the routine's result: tested, negated, stored, returned)
+                def _in_sink(nd, top):
+                    cur = getattr(nd, '_parent', None)
+                    prev = nd
+                    while cur is not None and prev is not top:
+                        if isinstance(cur, ast.Call) and prev is not cur.func:
+                            dd = prog.dotted(cur.func)
+                            if dd and dd.split('.')[-1] in (
+                                    '_info_appr', '_log', 'print'):
+                                return True
+                        prev, cur = cur, getattr(cur, '_parent', None)
+                    return False
+                srcs = [y for y in ast.walk(e) if is_clock_call(y) or (
+                    isinstance(y, ast.Name) and
+                    isinstance(y.ctx, ast.Load) and y.id in tainted)]
+                if srcs and all(_in_sink(y, e) for y in srcs) and \
+                        not any(isinstance(y, ast.Subscript) and
+                                isinstance(y.slice, ast.Constant) and
+                                y.slice.value == 't' for y in ast.walk(e)):
+                    ok = True
+                if ok:
+                    pass
+                elif isinstance(x, ast.Assign) and e is x:
                     tg = x.targets
                     if all(isinstance(t, ast.Name) for t in tg):
                         ok = True
